@@ -459,6 +459,7 @@ class Evaluator:
         self._discr_src = {}
         self._memo = {}
         self.effects = []       # opaque calls made during evaluation (may-list, in evaluation order)
+        self.const_models = {}         # values of named library constants (path -> term)
         self.comprehend = True          # a loop that only filters/maps an iterator into a fresh Vec becomes a ('comp', ..) value
         self.summarize_loops = False   # when set, an inner loop is replaced by a havoc of the locals it assigns
         self.no_skip = set()            # loop heads that must be entered rather than summarised
@@ -621,6 +622,8 @@ class Evaluator:
                 return UNIT
             if "promoted" in o:
                 return self._promoted(fn, o["promoted"])
+            if "uneval" in o and o["uneval"] in self.const_models:
+                return self.const_models[o["uneval"]]
             if "uneval" in o:
                 c = self.prog.consts.get(o["uneval"])
                 if c and "int" in c:
